@@ -914,6 +914,10 @@ func (multi *MultiEpoch) processSlotTransactions(
 				startTime := time.Now()
 				klog.V(2).Infof("Starting GSFA query for account %s, from slot %d to %d", pKey.String(), startSlot, endSlot)
 
+				// Where each transaction sits in its CAR: the order inside a slot when the archive
+				// carries no position index (filled by the fetcher below, on this goroutine).
+				carOffsets := make(map[*ipldbindcode.Transaction]uint64)
+
 				epochToTxns, err := gsfaReader.GetBeforeUntilSlot(
 					queryCtx,
 					pKey,
@@ -941,6 +945,7 @@ func (multi *MultiEpoch) processSlotTransactions(
 						if err != nil {
 							return nil, fmt.Errorf("error while decoding transaction from nodex at offset %d: %w", oas.Offset, err)
 						}
+						carOffsets[decoded] = oas.Offset
 						return decoded, nil
 					},
 				)
@@ -998,8 +1003,13 @@ func (multi *MultiEpoch) processSlotTransactions(
 							}
 
 							var position uint64
-							if txResp.Index != nil { // old archives carry no position index
+							if txResp.Index != nil {
 								position = *txResp.Index
+							} else {
+								// Old archives carry no position index: filing them all under position 0 kept only
+								// one transaction per slot. The objects of a block are stored in order, so the
+								// offset in the CAR orders (and tells apart) the transactions of a slot.
+								position = carOffsets[txn]
 							}
 							buffer.add(txResp.Slot, position, txResp)
 						}
